@@ -1,5 +1,495 @@
 import DaeVerif.C14.Proofs
+/-!
+# C14 — property theorems
+
+"A group contains exactly the nodes its filters select, each with its annotation."
+
+Everything is stated about the functions the driver `c14drv` executes (`filterAndAnnotate`,
+`parsePolicy`, `buildGroup`, `selectFixed` of `Model.lean`), for every oracle `O` (= every
+behaviour of regexp2 and `time.ParseDuration`), every pool and every definition.
+Helper lemmas are in `Proofs.lean`; every theorem is followed by a non-vacuity `example`.
+-/
 namespace DaeVerif.C14.Props
 open DaeVerif.C14
-theorem placeholder : containsSub [1,2,3] [2,3] = true := by decide
+
+/-! ## Membership -/
+
+/-- **Headline.** For a valid definition with at least one filter line the code returns exactly
+`specMembers`: the nodes, in pool order, that satisfy some line, each with the annotation of the
+first line it satisfies. -/
+theorem members_exact (O : Oracle) (filters : List Line) (annos : List (List Param))
+    (pool : List Node) (hlen : filters.length = annos.length) (hne : filters ≠ [])
+    (hv : DefValid O (filters.zip annos)) :
+    filterAndAnnotate O filters annos pool = .ok (specMembers O (filters.zip annos) pool) := by
+  unfold filterAndAnnotate
+  rw [if_neg (by simpa using hlen), (validateDef_none_iff O _).mpr hv]
+  have : filters.isEmpty = false := by cases filters <;> simp_all
+  simp only [this, Bool.false_eq_true, if_false]
+  rw [selectNodes_of_valid O _ hv, specMembers_eq]
+
+-- the hypotheses are satisfiable and the result is a proper, annotated subset (node 0 "hk-1" has
+-- tag "sub" and is excluded by `!subtag(sub)`, node 3 "hk-1" without tag gets 5 ms, nodes 1, 2
+-- fall to the second line)
+example : Demo.filters.length = Demo.annos.length ∧ Demo.filters ≠ [] ∧
+    DefValid Demo.O (Demo.filters.zip Demo.annos) ∧
+    filterAndAnnotate Demo.O Demo.filters Demo.annos Demo.pool = .ok [(1, 0), (2, 0), (3, 5000000)] :=
+  ⟨by decide, by decide, (validateDef_none_iff _ _).mp (by decide), by decide⟩
+
+/-- Whatever the definition: if the code accepts it, the definition is valid and the result is its
+meaning (all nodes when there is no filter line). -/
+theorem accepted_result_is_meaning (O : Oracle) (filters : List Line) (annos : List (List Param))
+    (pool : List Node) (r : List (Nat × Int)) (h : filterAndAnnotate O filters annos pool = .ok r) :
+    filters.length = annos.length ∧ DefValid O (filters.zip annos) ∧
+      r = (if filters = [] then pool.zipIdx.map (fun ni => (ni.2, 0))
+           else specMembers O (filters.zip annos) pool) := by
+  unfold filterAndAnnotate at h
+  by_cases hlen : filters.length = annos.length
+  · rw [if_neg (by simpa using hlen)] at h
+    cases hvd : validateDef O (filters.zip annos) with
+    | some e => rw [hvd] at h; cases h
+    | none =>
+      have hv := (validateDef_none_iff O _).mp hvd
+      rw [hvd] at h
+      simp only at h
+      refine ⟨hlen, hv, ?_⟩
+      by_cases hf : filters = []
+      · subst hf
+        simp only [List.isEmpty_nil, if_true, Except.ok.injEq] at h
+        simp [← h]
+      · have : filters.isEmpty = false := by cases filters <;> simp_all
+        rw [this] at h
+        simp only [Bool.false_eq_true, if_false] at h
+        rw [selectNodes_of_valid O _ hv, ← specMembers_eq] at h
+        simp only [Except.ok.injEq] at h
+        rw [if_neg hf, h]
+  · rw [if_pos (by simpa using hlen)] at h; cases h
+
+/-- A node is a member iff it satisfies at least one filter line. -/
+theorem member_iff (O : Oracle) (filters : List Line) (annos : List (List Param))
+    (pool : List Node) (r : List (Nat × Int)) (hne : filters ≠ [])
+    (h : filterAndAnnotate O filters annos pool = .ok r) (i : Nat) :
+    (∃ v, (i, v) ∈ r) ↔ ∃ n, pool[i]? = some n ∧ ∃ l ∈ filters, lineHolds O n l = true := by
+  obtain ⟨hlen, _, hr⟩ := accepted_result_is_meaning O filters annos pool r h
+  rw [if_neg hne] at hr
+  subst hr
+  rw [specMembers_eq]
+  constructor
+  · rintro ⟨v, hm⟩
+    obtain ⟨⟨n, i'⟩, hni, hs⟩ := List.mem_filterMap.mp hm
+    unfold specOne at hs
+    cases hf : (filters.zip annos).find? (fun la => lineHolds O n la.1) with
+    | none => rw [hf] at hs; cases hs
+    | some la =>
+      rw [hf] at hs
+      simp only [Option.map_some, Option.some.injEq, Prod.mk.injEq] at hs
+      obtain ⟨rfl, _⟩ := hs
+      refine ⟨n, List.mem_zipIdx_iff_getElem?.mp hni, la.1, ?_, ?_⟩
+      · exact (List.of_mem_zip (List.mem_of_find?_eq_some hf : (la.1, la.2) ∈ _)).1
+      · exact List.find?_some (p := fun (la : Line × List Param) => lineHolds O n la.1) hf
+  · rintro ⟨n, hn, l, hl, hh⟩
+    obtain ⟨a, ha⟩ := exists_zip_of_mem_left filters annos hlen l hl
+    have hsome : ((filters.zip annos).find? (fun la => lineHolds O n la.1)).isSome = true :=
+      List.find?_isSome.mpr ⟨(l, a), ha, hh⟩
+    obtain ⟨la, hla⟩ := Option.isSome_iff_exists.mp hsome
+    refine ⟨annoValue O la.2, List.mem_filterMap.mpr ⟨(n, i), ?_, ?_⟩⟩
+    · exact List.mem_zipIdx_iff_getElem?.mpr hn
+    · unfold specOne; rw [hla]; rfl
+
+example : ∃ r, filterAndAnnotate Demo.O Demo.filters Demo.annos Demo.pool = .ok r ∧
+    (∃ v, (3, v) ∈ r) ∧ ¬ (∃ v, (0, v) ∈ r) :=
+  ⟨[(1, 0), (2, 0), (3, 5000000)], by decide, ⟨5000000, by decide⟩, fun ⟨v, hv⟩ => by
+    simp only [List.mem_cons, Prod.mk.injEq, List.not_mem_nil, or_false] at hv
+    omega⟩
+
+/-- Each member appears once, in pool order: the member indices are a sublist of
+`0, 1, …, |pool|-1` (hence strictly increasing). Holds for every accepted definition. -/
+theorem members_once_in_pool_order (O : Oracle) (filters : List Line) (annos : List (List Param))
+    (pool : List Node) (r : List (Nat × Int))
+    (h : filterAndAnnotate O filters annos pool = .ok r) :
+    (r.map Prod.fst).Sublist (List.range pool.length) ∧
+      (r.map Prod.fst).Pairwise (· < ·) := by
+  have key : (r.map Prod.fst).Sublist (List.range pool.length) := by
+    obtain ⟨_, _, hr⟩ := accepted_result_is_meaning O filters annos pool r h
+    have hz : pool.zipIdx.map Prod.snd = List.range pool.length := by
+      rw [List.zipIdx_map_snd, List.range_eq_range']
+    by_cases hf : filters = []
+    · rw [if_pos hf] at hr
+      subst hr
+      rw [List.map_map, ← hz]
+      exact List.Sublist.refl _
+    · rw [if_neg hf] at hr
+      subst hr
+      rw [specMembers_eq, ← hz]
+      have e : specOne O (filters.zip annos) = fun ni : Node × Nat =>
+          (((filters.zip annos).find? fun la => lineHolds O ni.1 la.1).map
+            fun la => annoValue O la.2).map fun y => (ni.2, y) := by
+        funext ni; unfold specOne; rw [Option.map_map]; rfl
+      rw [e]
+      exact filterMap_fst_sublist Prod.snd _ _
+  exact ⟨key, List.Pairwise.sublist key List.pairwise_lt_range⟩
+
+-- a pool with a duplicated node: both copies are members, each once
+example : filterAndAnnotate Demo.O [[⟨sName, false, [⟨[], Demo.hk1⟩]⟩]] [[]] Demo.pool
+    = .ok [(0, 0), (3, 0)] := by decide
+
+/-- A member carries the annotation of the FIRST line it satisfies. -/
+theorem member_annotation_of_first_line (O : Oracle) (filters : List Line)
+    (annos : List (List Param)) (pool : List Node) (r : List (Nat × Int)) (hne : filters ≠ [])
+    (h : filterAndAnnotate O filters annos pool = .ok r) (i : Nat) (v : Int) (n : Node)
+    (hm : (i, v) ∈ r) (hn : pool[i]? = some n) :
+    ∃ pre la post, filters.zip annos = pre ++ la :: post ∧
+      (∀ x ∈ pre, lineHolds O n x.1 = false) ∧ lineHolds O n la.1 = true ∧
+      v = annoValue O la.2 := by
+  obtain ⟨_, _, hr⟩ := accepted_result_is_meaning O filters annos pool r h
+  rw [if_neg hne] at hr
+  subst hr
+  rw [specMembers_eq] at hm
+  obtain ⟨⟨n', i'⟩, hni, hs⟩ := List.mem_filterMap.mp hm
+  unfold specOne at hs
+  cases hf : (filters.zip annos).find? (fun la => lineHolds O n' la.1) with
+  | none => rw [hf] at hs; cases hs
+  | some la =>
+    rw [hf] at hs
+    simp only [Option.map_some, Option.some.injEq, Prod.mk.injEq] at hs
+    obtain ⟨rfl, rfl⟩ := hs
+    have hn' := List.mem_zipIdx_iff_getElem?.mp hni
+    simp only at hn'
+    rw [hn] at hn'
+    obtain rfl := Option.some.inj hn'
+    obtain ⟨hh, pre, post, hsplit, hpre⟩ := List.find?_eq_some_iff_append.mp hf
+    exact ⟨pre, la, post, hsplit, fun x hx => by simpa using hpre x hx, hh, rfl⟩
+
+-- node 3 satisfies both lines of the demo definition and gets the first line's 5 ms, not 0
+example : lineHolds Demo.O ⟨Demo.hk1, []⟩ [⟨sName, false, [⟨sRegex, [49]⟩]⟩] = true ∧
+    filterAndAnnotate Demo.O (Demo.filters ++ [[⟨sName, false, [⟨sRegex, [49]⟩]⟩]])
+      (Demo.annos ++ [[]]) Demo.pool = .ok [(0, 0), (1, 0), (2, 0), (3, 5000000)] := by decide
+
+/-- A group without filters contains every node (annotation 0). -/
+theorem no_filter_all (O : Oracle) (pool : List Node) :
+    ∃ r, filterAndAnnotate O [] [] pool = .ok r ∧ r.map Prod.fst = List.range pool.length ∧
+      ∀ m ∈ r, m.2 = 0 := by
+  refine ⟨pool.zipIdx.map (fun ni => (ni.2, 0)), rfl, ?_, ?_⟩
+  · rw [List.map_map, List.range_eq_range', ← List.zipIdx_map_snd 0 pool]; rfl
+  · intro m hm
+    obtain ⟨_, _, rfl⟩ := List.mem_map.mp hm
+    rfl
+
+example : filterAndAnnotate Demo.O [] [] Demo.pool = .ok [(0, 0), (1, 0), (2, 0), (3, 0)] := by decide
+
+/-! ## What a line means -/
+
+/-- A line is an AND of conditions; a condition is an OR over its values, xor `!`. -/
+theorem line_semantics (O : Oracle) (n : Node) (l : Line) :
+    lineHolds O n l = true ↔
+      ∀ f ∈ l, ((∃ p ∈ f.params, paramSat O n f.name p = true) ↔ f.neg = false) := by
+  unfold lineHolds funcHolds
+  rw [List.all_eq_true]
+  constructor
+  · intro h f hf
+    have := h f hf
+    rw [← List.any_eq_true]
+    cases h1 : f.params.any (paramSat O n f.name) <;> cases h2 : f.neg <;> simp_all
+  · intro h f hf
+    have := h f hf
+    rw [← List.any_eq_true] at this
+    cases h1 : f.params.any (paramSat O n f.name) <;> cases h2 : f.neg <;> simp_all
+
+/-- … and on a valid line the real evaluation (`filterHit`, with its early exits) computes
+exactly that. -/
+theorem filterHit_computes_line (O : Oracle) (n : Node) (l : Line) (hv : LineValid O l) :
+    filterHit O n l = .ok (lineHolds O n l) := filterHit_of_valid O n l hv
+
+example : LineValid Demo.O (Demo.filters.headD []) ∧
+    filterHit Demo.O ⟨Demo.hk1, []⟩ (Demo.filters.headD []) = .ok true ∧
+    filterHit Demo.O ⟨Demo.hk1, Demo.sub⟩ (Demo.filters.headD []) = .ok false :=
+  ⟨(validateLine_none_iff _ _).mp (by decide), by decide, by decide⟩
+
+/-- The three kinds of value: exact = equality, `keyword:` = substring, `regex:` = the regex
+oracle; `name(...)` looks at the node name, `subtag(...)` at its subscription tag. -/
+theorem value_semantics (O : Oracle) (n : Node) (fname : Str) (p : Param) :
+    let subject := if fname = sName then n.name else n.tag
+    (p.key = [] → (paramSat O n fname p = true ↔ subject = p.val)) ∧
+    (p.key = sKeyword → (paramSat O n fname p = true ↔ p.val <:+: subject)) ∧
+    (p.key = sRegex → ∀ m, O.re p.val = some m → paramSat O n fname p = m subject) := by
+  intro subject
+  refine ⟨?_, ?_, ?_⟩
+  · intro hk
+    unfold paramSat
+    have h1 : p.key ≠ sRegex := by rw [hk]; exact fun e => sRegex_ne_nil e.symm
+    have h2 : p.key ≠ sKeyword := by rw [hk]; exact fun e => sKeyword_ne_nil e.symm
+    simp only [if_neg h1, if_neg h2, beq_iff_eq]
+    exact Iff.rfl
+  · intro hk
+    unfold paramSat
+    have h1 : p.key ≠ sRegex := by rw [hk]; exact sKeyword_ne_regex
+    simp only [if_neg h1, if_pos hk]
+    exact containsSub_iff _ _
+  · intro hk m hm
+    unfold paramSat
+    simp only [if_pos hk, hm]
+    rfl
+
+/-- `strings.Contains` as modelled is the substring relation. -/
+theorem keyword_is_substring (s k : Str) : containsSub s k = true ↔ ∃ a b, a ++ k ++ b = s :=
+  containsSub_iff s k
+
+example : containsSub Demo.hk1 [107, 45] = true ∧ containsSub Demo.hk1 [] = true ∧
+    containsSub Demo.hk1 [107, 49] = false := by decide
+
+/-! ## Annotations -/
+
+/-- A valid annotation yields the first non-zero `add_latency` of the list (0 if there is none) —
+"only the first setting is valid", as the code has it: a leading `0s` does not count. -/
+theorem annotation_first_nonzero (O : Oracle) (a : List Param) (hv : AnnoValid O a) :
+    newAnnotation O a = .ok (annoValue O a) ∧
+      annoValue O a = ((a.filterMap fun p => O.dur p.val).find? (· ≠ 0)).getD 0 :=
+  ⟨newAnnotation_of_valid O a hv, rfl⟩
+
+example : newAnnotation Demo.O [⟨sAddLatency, Demo.s0⟩, ⟨sAddLatency, Demo.ms5⟩, ⟨sAddLatency, Demo.s0⟩]
+    = .ok 5000000 := by decide
+
+/-! ## Invalid definitions are configuration errors -/
+
+/-- **Eager validation.** An invalid filter line (unknown input, unknown key, regex that does not
+compile) or annotation (unknown key, malformed duration) anywhere in the definition is reported,
+for EVERY pool — including the empty one and pools on which evaluation would never reach the
+invalid item. (This is the theorem that was false before the `fix:` commit 367c759.) -/
+theorem invalid_always_reported (O : Oracle) (filters : List Line) (annos : List (List Param))
+    (pool : List Node) (hinv : ¬ DefValid O (filters.zip annos)) :
+    ∃ e, filterAndAnnotate O filters annos pool = .error e := by
+  unfold filterAndAnnotate
+  by_cases hlen : filters.length = annos.length
+  · rw [if_neg (by simpa using hlen)]
+    cases hvd : validateDef O (filters.zip annos) with
+    | some e => exact ⟨e, rfl⟩
+    | none => exact absurd ((validateDef_none_iff O _).mp hvd) hinv
+  · rw [if_pos (by simpa using hlen)]; exact ⟨_, rfl⟩
+
+-- the reproduced defect: `name(keyword: z) && b()` over a pool where nothing contains "z", and
+-- over the empty pool
+example : ¬ DefValid Demo.O (Demo.badFilters.zip [[]]) ∧
+    filterAndAnnotate Demo.O Demo.badFilters [[]] Demo.pool = .error (.badInput [98]) ∧
+    filterAndAnnotate Demo.O Demo.badFilters [[]] [] = .error (.badInput [98]) :=
+  ⟨fun h => by
+      have := (validateDef_none_iff _ _).mpr h
+      revert this; decide, by decide, by decide⟩
+
+/-- Exactly the invalid definitions are rejected (given the parser's invariant that every line has
+its annotation slot). -/
+theorem error_iff_invalid (O : Oracle) (filters : List Line) (annos : List (List Param))
+    (pool : List Node) (hlen : filters.length = annos.length) :
+    (∃ e, filterAndAnnotate O filters annos pool = .error e) ↔ ¬ DefValid O (filters.zip annos) := by
+  constructor
+  · rintro ⟨e, he⟩ hv
+    unfold filterAndAnnotate at he
+    rw [if_neg (by simpa using hlen), (validateDef_none_iff O _).mpr hv] at he
+    simp only at he
+    split at he
+    · cases he
+    · rw [selectNodes_of_valid O _ hv] at he; cases he
+  · exact invalid_always_reported O filters annos pool
+
+/-- The reported error points at an item that really is in the definition and really is invalid
+(or at the length mismatch). -/
+theorem error_names_invalid_item (O : Oracle) (filters : List Line) (annos : List (List Param))
+    (pool : List Node) (e : Err) (h : filterAndAnnotate O filters annos pool = .error e) :
+    ErrWitness O filters annos e := by
+  unfold filterAndAnnotate at h
+  by_cases hlen : filters.length = annos.length
+  · rw [if_neg (by simpa using hlen)] at h
+    cases hvd : validateDef O (filters.zip annos) with
+    | some e' =>
+      rw [hvd] at h
+      simp only [Except.error.injEq] at h
+      subst h
+      have := validateDef_some O _ e' hvd
+      rwa [List.map_fst_zip (Nat.le_of_eq hlen), List.map_snd_zip (Nat.le_of_eq hlen.symm)] at this
+    | none =>
+      have hv := (validateDef_none_iff O _).mp hvd
+      rw [hvd] at h
+      simp only at h
+      split at h
+      · cases h
+      · rw [selectNodes_of_valid O _ hv] at h; cases h
+  · rw [if_pos (by simpa using hlen)] at h
+    simp only [Except.error.injEq] at h
+    subst h
+    exact ⟨rfl, rfl, hlen⟩
+
+example : filterAndAnnotate Demo.O [[⟨sSubtag, false, [⟨sKeyword, [115]⟩]⟩]] [[]] Demo.pool
+      = .error (.badKey sKeyword sSubtag) ∧
+    filterAndAnnotate Demo.O [[⟨sName, false, [⟨sRegex, [40]⟩]⟩]] [[]] [] = .error (.badRegex [40]) ∧
+    filterAndAnnotate Demo.O Demo.filters [[⟨[120], Demo.s0⟩], []] [] = .error (.annoKey [120]) ∧
+    filterAndAnnotate Demo.O Demo.filters [[⟨sAddLatency, [53]⟩], []] [] = .error (.annoLatency [53]) ∧
+    filterAndAnnotate Demo.O Demo.filters [[]] [] = .error (.lenMismatch 2 1) := by decide
+
+/-! ## Policy -/
+
+/-- Exactly which `policy:` values are accepted, and what they denote. There are five policy names in
+this code base (`random`, `fixed`, `min`, `min_avg10`, `min_moving_avg`); anything else, a
+function count other than one, `!fixed(..)`, `fixed` without exactly one plain integer argument is a
+configuration error. (As the code has it, the four parameterless policies ignore `!` and
+arguments.) -/
+theorem policy_ok_iff (v : PolicyVal) (p : Policy) :
+    parsePolicy v = .ok p ↔
+      ∃ f, toFuncList v = some [f] ∧
+        ((f.name = sRandom ∧ p = .random) ∨ (f.name = sMinAvg10 ∧ p = .minAvg10) ∨
+         (f.name = sMin ∧ p = .minLast) ∨ (f.name = sMinMovingAvg ∧ p = .minMovingAvg) ∨
+         (f.name = sFixed ∧ f.neg = false ∧
+            ∃ val i, f.params = [⟨[], val⟩] ∧ atoi val = some i ∧ p = .fixed i)) := by
+  have d1 : sMinAvg10 ≠ sRandom := by decide
+  have d2 : sMin ≠ sRandom := by decide
+  have d3 : sMin ≠ sMinAvg10 := by decide
+  have d4 : sMinMovingAvg ≠ sRandom := by decide
+  have d5 : sMinMovingAvg ≠ sMinAvg10 := by decide
+  have d6 : sMinMovingAvg ≠ sMin := by decide
+  have d7 : sFixed ≠ sRandom := by decide
+  have d8 : sFixed ≠ sMinAvg10 := by decide
+  have d9 : sFixed ≠ sMin := by decide
+  have d10 : sFixed ≠ sMinMovingAvg := by decide
+  unfold parsePolicy
+  cases hfl : toFuncList v with
+  | none => simp
+  | some fs =>
+    match fs with
+    | [] => simp
+    | _ :: _ :: _ => simp
+    | [f] =>
+      simp only [Option.some.injEq, List.cons.injEq, and_true, exists_eq_left']
+      by_cases h1 : f.name = sRandom
+      · simp only [h1, d1.symm, d2.symm, d4.symm, d7.symm, if_true, true_and, false_and, or_false,
+          Except.ok.injEq]
+        exact eq_comm
+      · by_cases h2 : f.name = sMinAvg10
+        · simp only [h2, d1, d3.symm, d5.symm, d8.symm, if_true, if_false, true_and, false_and,
+            or_false, false_or, Except.ok.injEq]
+          exact eq_comm
+        · by_cases h3 : f.name = sMin
+          · simp only [h3, d2, d3, d6.symm, d9.symm, if_true, if_false, true_and, false_and,
+              or_false, false_or, Except.ok.injEq]
+            exact eq_comm
+          · by_cases h4 : f.name = sMinMovingAvg
+            · simp only [h4, d4, d5, d6, d10.symm, if_true, if_false, true_and, false_and,
+                or_false, false_or, Except.ok.injEq]
+              exact eq_comm
+            · by_cases h5 : f.name = sFixed
+              · simp only [h5, d7, d8, d9, d10, if_false, if_true, false_and, false_or, true_and]
+                cases hneg : f.neg with
+                | true => simp
+                | false =>
+                  simp only [Bool.false_eq_true, if_false, true_and]
+                  match hps : f.params with
+                  | [] => simp
+                  | _ :: _ :: _ => simp
+                  | [q] =>
+                    obtain ⟨k, val⟩ := q
+                    by_cases hk : k = []
+                    · subst hk
+                      cases ha : atoi val with
+                      | none => simp [ha]
+                      | some i =>
+                        simp only [if_true, Except.ok.injEq, List.cons.injEq, Param.mk.injEq,
+                          true_and, and_true, exists_and_left, exists_eq_left', ha, Option.some.injEq]
+                        exact eq_comm
+                    · simp [hk]
+              · simp only [h1, h2, h3, h4, h5, if_false, false_and, or_false, reduceCtorEq]
+
+example : parsePolicy (.str sMin) = .ok .minLast ∧
+    parsePolicy (.funcs [⟨sFixed, false, [⟨[], [50]⟩]⟩]) = .ok (.fixed 2) ∧
+    parsePolicy (.funcs [⟨sFixed, false, [⟨[], [45, 49]⟩]⟩]) = .ok (.fixed (-1)) ∧
+    parsePolicy (.funcs [⟨sFixed, true, [⟨[], [50]⟩]⟩]) = .error (.notOp sFixed) ∧
+    parsePolicy (.funcs [⟨sFixed, false, [⟨[], [97]⟩]⟩]) = .error (.atoi sFixed) ∧
+    parsePolicy (.str [102]) = .error (.unexpected [102]) ∧
+    parsePolicy (.funcs []) = .error (.count 0) ∧ parsePolicy .other = .error .valueType := by decide
+
+/-- `strconv.Atoi` as modelled only yields int64 values. -/
+theorem atoi_range (s : Str) (i : Int) (h : atoi s = some i) : -(2 ^ 63 : Int) ≤ i ∧ i < 2 ^ 63 := by
+  unfold atoi at h
+  split at h
+  rename_i neg body _
+  split at h
+  · cases h
+  · split at h
+    · cases h
+    · rename_i v _
+      cases neg with
+      | true =>
+        simp only [if_true] at h
+        split at h
+        · simp only [Option.some.injEq] at h; omega
+        · cases h
+      | false =>
+        simp only [Bool.false_eq_true, if_false] at h
+        split at h
+        · simp only [Option.some.injEq] at h; omega
+        · cases h
+
+example : atoi [45, 57, 50, 50, 51, 51, 55, 50, 48, 51, 54, 56, 53, 52, 55, 55, 53, 56, 48, 56]
+      = some (-(2 ^ 63)) ∧
+    atoi [57, 50, 50, 51, 51, 55, 50, 48, 51, 54, 56, 53, 52, 55, 55, 53, 56, 48, 56] = none ∧
+    atoi [] = none ∧ atoi [43] = none ∧ atoi [49, 95, 48] = none := by decide
+
+/-! ## The group -/
+
+/-- The group is built iff the policy AND the filter definition are acceptable; it then holds the
+parsed policy and exactly the members `filterAndAnnotate` returned (same order, same annotations).
+A policy error is reported first. -/
+theorem group_error_iff (O : Oracle) (pv : PolicyVal) (filters : List Line)
+    (annos : List (List Param)) (pool : List Node) :
+    (∀ g, buildGroup O pv filters annos pool = .ok g ↔
+        parsePolicy pv = .ok g.policy ∧ filterAndAnnotate O filters annos pool = .ok g.members) ∧
+    ((∃ e, buildGroup O pv filters annos pool = .error e) ↔
+        (∃ e, parsePolicy pv = .error e) ∨ (∃ e, filterAndAnnotate O filters annos pool = .error e)) := by
+  unfold buildGroup
+  cases hp : parsePolicy pv with
+  | error e => simp
+  | ok p =>
+    cases hf : filterAndAnnotate O filters annos pool with
+    | error e => simp
+    | ok ms =>
+      simp only [Except.ok.injEq, reduceCtorEq, exists_false, or_self, and_true]
+      intro g
+      constructor
+      · rintro rfl; exact ⟨rfl, rfl⟩
+      · rintro ⟨rfl, rfl⟩; rfl
+
+/-- `fixed(i)` selects the i-th member (from 0) of a non-empty group and is an error when `i` is
+out of range — an out-of-range index is NOT a configuration error in this code base, it is
+rejected at each selection. -/
+theorem fixed_selects_ith_member {α : Type} (i : Int) (ms : List α) :
+    (∀ m, selectFixed i ms = .ok m ↔ 0 ≤ i ∧ ms[i.toNat]? = some m) ∧
+    (selectFixed i ms = .error .outOfRange ↔ ms ≠ [] ∧ (i < 0 ∨ (ms.length : Int) ≤ i)) ∧
+    (selectFixed i ms = .error .emptyGroup ↔ ms = []) := by
+  unfold selectFixed
+  match ms with
+  | [] => simp
+  | x :: xs =>
+    simp only [ne_eq, reduceCtorEq, not_false_eq_true, true_and, iff_false]
+    by_cases hr : i < 0 ∨ i ≥ ((x :: xs).length : Int)
+    · rw [if_pos hr]
+      refine ⟨?_, ?_, by simp⟩
+      · intro m
+        simp only [reduceCtorEq, false_iff, not_and]
+        intro h0 hm
+        rcases hr with hr | hr
+        · omega
+        · have := (List.getElem?_eq_some_iff.mp hm).1
+          omega
+      · simp only [true_iff]; exact hr
+    · rw [if_neg hr]
+      have hlt : i.toNat < (x :: xs).length := by omega
+      rw [List.getElem?_eq_getElem hlt]
+      refine ⟨?_, ?_, by simp⟩
+      · intro m
+        simp only [Except.ok.injEq, Option.some.injEq]
+        constructor
+        · intro h; exact ⟨by omega, h⟩
+        · intro h; exact h.2
+      · simp only [reduceCtorEq, false_iff]
+        exact hr
+
+example : selectFixed 1 [10, 20, 30] = .ok 20 ∧ selectFixed 3 [10, 20, 30] = .error .outOfRange ∧
+    selectFixed (-1) [10, 20, 30] = .error .outOfRange ∧
+    selectFixed 0 ([] : List Nat) = .error .emptyGroup := by decide
+
 end DaeVerif.C14.Props
